@@ -286,6 +286,16 @@ impl KnownWord {
     /// Computes the signed right shift of `self` by `rhs`.
     #[must_use]
     pub fn sar(self, rhs: Self) -> Self {
+        // Shifting by the word size or more leaves only copies of the sign bit, as it does in
+        // the EVM
+        if rhs.value_le() >= U256::from(256u16) {
+            return if self.value_le_signed() < I256::new(0) {
+                !KnownWord::zero()
+            } else {
+                KnownWord::zero()
+            };
+        }
+
         // We need the value to be signed to make it an arithmetic shift
         let result = self.value_le_signed() >> rhs.value_le();
 
@@ -402,6 +412,11 @@ impl std::ops::Shl<KnownWord> for KnownWord {
 
     /// Computes the left shift of `self` by `rhs`.
     fn shl(self, rhs: KnownWord) -> Self::Output {
+        // Shifting by the word size or more shifts every bit out, as it does in the EVM
+        if rhs.value_le() >= U256::from(256u16) {
+            return KnownWord::zero();
+        }
+
         KnownWord::from_le(self.value_le() << rhs.value_le())
     }
 }
@@ -411,6 +426,11 @@ impl std::ops::Shr<KnownWord> for KnownWord {
 
     /// Computes the unsigned right shift of `self` by `rhs`.
     fn shr(self, rhs: KnownWord) -> Self::Output {
+        // Shifting by the word size or more shifts every bit out, as it does in the EVM
+        if rhs.value_le() >= U256::from(256u16) {
+            return KnownWord::zero();
+        }
+
         KnownWord::from_le(self.value_le() >> rhs.value_le())
     }
 }
